@@ -1240,6 +1240,8 @@ func (s *c42Sys) Key() string {
 		s.last = ""
 	}
 	var b strings.Builder
+	b.WriteString(s.sc.name)
+	b.WriteString("|")
 	var chain []string
 	for x := s.chain.head; x != nil; x = x.parent {
 		chain = append(chain, x.desc)
@@ -1339,7 +1341,7 @@ func c42Scenarios(r *mc.R) []*c42Scenario {
 	return []*c42Scenario{
 		{
 			// inclusion, limbo, reorgs, finality, restarts
-			name: "limbo", slots: 4, depthQ: 2, depthT: 3,
+			name: "limbo", slots: 4, depthQ: 3, depthT: 4,
 			init: []string{"add:A0", "add:A1", "add:B0"},
 			ops: mc.Pick(r,
 				[]string{"inc:A", "incx:A", "incd:A", "revert", "final", "restart"},
@@ -1347,7 +1349,7 @@ func c42Scenarios(r *mc.R) []*c42Scenario {
 		},
 		{
 			// full pool (capacity 3): every further add overflows; replacements, eviction by priority, fee moves, tip, restarts
-			name: "evict", slots: 3, depthQ: 2, depthT: 3,
+			name: "evict", slots: 3, depthQ: 2, depthT: 4,
 			init: []string{"add:A0", "add:B0", "add:B1"},
 			ops: mc.Pick(r,
 				[]string{"add:A1", "add:A0h", "add:A0m", "add:B0h", "add:B1h", "add:C0", "fee:1500", "tip:95", "restart"},
@@ -1355,7 +1357,7 @@ func c42Scenarios(r *mc.R) []*c42Scenario {
 		},
 		{
 			// one inclusion deep: a second inclusion, reorg back out, finality then reorg, restart with a populated limbo
-			name: "limbo2", slots: 4, depthQ: 2, depthT: 3,
+			name: "limbo2", slots: 4, depthQ: 2, depthT: 4,
 			init: []string{"add:A0", "add:A1", "add:B0", "inc:A"},
 			ops: mc.Pick(r,
 				[]string{"inc:A", "revert", "final", "restart", "inc:B"},
@@ -1363,7 +1365,7 @@ func c42Scenarios(r *mc.R) []*c42Scenario {
 		},
 		{
 			// gapped reorder buffer (A may park one transaction), replacement inside a sequence, restart drops the buffer
-			name: "gapped", slots: 4, depthQ: 2, depthT: 3,
+			name: "gapped", slots: 4, depthQ: 3, depthT: 4,
 			init: []string{"add:A1h"},
 			ops: mc.Pick(r,
 				[]string{"add:A0", "add:A1", "add:A2", "inc:A", "restart"},
